@@ -139,17 +139,25 @@ NoFd == [open |-> FALSE, ino |-> 0, rd |-> FALSE, wr |-> FALSE, app |-> FALSE, p
 NoPipe == [made |-> FALSE, buf |-> <<>>, tx |-> FALSE, rx |-> FALSE, pw |-> <<>>, pr |-> <<>>]
 
 EmptyNs == [p \in Paths |-> NoneN]
-St0 == [ns |-> EmptyNs, data |-> [i \in Inos |-> <<>>], hi |-> [i \in Inos |-> 0], next |-> 1,
+\* permission bits (st_mode & 07777, decimal).  The harness fixes the umask to 022 (libc::umask) and builds
+\* the initial files with std::fs::write (0666 & ~022 = 0644).
+DefaultMode == 438                     \* 0666, OpenOptions' default
+InitPerm == 420                        \* 0644
+ClearW(d) == IF (d \div 2) % 2 = 1 THEN d - 2 ELSE d
+Masked(m) == (m \div 64) * 64 + ClearW((m \div 8) % 8) * 8 + ClearW(m % 8)      \* m & ~022
+St0 == [ns |-> EmptyNs, data |-> [i \in Inos |-> <<>>], hi |-> [i \in Inos |-> 0], perm |-> [i \in Inos |-> 0], next |-> 1,
         fd |-> NoFd, cur |-> 0, pipe |-> NoPipe]
 
 \* initial states per group
-DataInit(c, app) == [St0 EXCEPT !.ns["f"] = FileN(1), !.data[1] = c, !.hi[1] = Len(c), !.next = 2,
+DataInit(c, app) == [St0 EXCEPT !.ns["f"] = FileN(1), !.data[1] = c, !.hi[1] = Len(c), !.perm[1] = InitPerm, !.next = 2,
                                 !.fd = [open |-> TRUE, ino |-> 1, rd |-> TRUE, wr |-> TRUE, app |-> app, pos |-> 0]]
 OpenInit(c) == IF c = <<>> THEN [St0 EXCEPT !.ns["d"] = DirN]       \* "f" absent
-               ELSE [St0 EXCEPT !.ns["f"] = FileN(1), !.data[1] = c, !.hi[1] = Len(c), !.next = 2, !.ns["d"] = DirN]
-NsInit(k) == IF k = "f" THEN [St0 EXCEPT !.ns["f"] = FileN(1), !.data[1] = <<1, 2>>, !.hi[1] = 2, !.next = 2]
-             ELSE [St0 EXCEPT !.ns["f"] = FileN(1), !.data[1] = <<1, 2>>, !.hi[1] = 2,
-                              !.ns["d"] = DirN, !.ns["d/f"] = FileN(2), !.data[2] = <<3>>, !.hi[2] = 1, !.next = 3]
+               ELSE [St0 EXCEPT !.ns["f"] = FileN(1), !.data[1] = c, !.hi[1] = Len(c), !.perm[1] = InitPerm, !.next = 2,
+                                !.ns["d"] = DirN]
+NsInit(k) == IF k = "f" THEN [St0 EXCEPT !.ns["f"] = FileN(1), !.data[1] = <<1, 2>>, !.hi[1] = 2, !.perm[1] = InitPerm, !.next = 2]
+             ELSE [St0 EXCEPT !.ns["f"] = FileN(1), !.data[1] = <<1, 2>>, !.hi[1] = 2, !.perm[1] = InitPerm,
+                              !.ns["d"] = DirN, !.ns["d/f"] = FileN(2), !.data[2] = <<3>>, !.hi[2] = 1, !.perm[2] = InitPerm,
+                              !.next = 3]
 
 NoLast == [o |-> "", path |-> "", res |-> Ok(0), ref |-> Ok(0), dev |-> FALSE]
 
@@ -223,11 +231,22 @@ SyncEff == Same(Ok(0))
 MetaEff == Same(Ok(Len(st.data[st.fd.ino])))
 CloseEff == E([st EXCEPT !.fd = NoFd, !.cur = 0], Ok(0), Ok(0), FALSE)
 
-\* op = [o: "open", path, opt: [r,w,t,c,cn,app]]
-\* compio-fs/src/open_options/unix.rs get_access_mode / get_creation_mode, then openat
+\* op = [o: "open", path, opt: [r,w,t,c,cn,app,tmp,mode]]
+\* compio-fs/src/open_options/unix.rs get_access_mode / get_creation_mode | custom_flags (O_APPEND, O_TMPFILE),
+\* mode, then openat.  A successful open reports the permission bits of the inode behind the descriptor.
 \* DevOpenFallbackFd0: OpenFile::call (blocking fallback) stores the descriptor itself and returns
 \* Ok(0); the io_uring OpCode's set_result then takes that 0 for the new descriptor, drops (closes)
 \* the real one and hands out descriptor 0.  The file system effects (create, truncate) happened.
+\*
+\* The mode argument reaches the kernel on every path: IourEntry puts it into the SQE
+\* (opcode::OpenAt .mode(self.mode.bits())), PollPool and BlockingFallback go through
+\* OpenFile::call -> openat(dirfd, path, flags | CLOEXEC, self.mode).  The kernel uses it whenever an
+\* inode is created: O_CREAT and O_TMPFILE (which has no O_CREAT).
+\* MutOpenCallModeOnlyOnCreate (a mutation, control config MC_FileModel_mut_mode.cfg): OpenFile::call
+\* passing the mode only together with O_CREAT.
+KMode(o, pth) == IF "MutOpenCallModeOnlyOnCreate" \in Devs /\ pth \in {"poll_pool", "blocking_fallback"}
+                    /\ ~(o.c \/ o.cn)
+                 THEN 0 ELSE o.mode
 OpenEff(op, pth) ==
   LET o == op.opt
       n == st.ns
@@ -237,17 +256,31 @@ OpenEff(op, pth) ==
       node == n[tp]
       opened(s, i) == [s EXCEPT !.fd = [open |-> TRUE, ino |-> i, rd |-> o.r, wr |-> o.w, app |-> o.app, pos |-> 0],
                                 !.cur = 0]
-      created == opened([st EXCEPT !.ns[tp] = FileN(st.next), !.next = @ + 1], st.next)
-      Opened(s) == IF pth = "blocking_fallback" /\ "DevOpenFallbackFd0" \in Devs
-                   THEN E([s EXCEPT !.fd = NoFd, !.cur = 0], Err("WrongDescriptor"), Ok(0), TRUE)
-                   ELSE E(s, Ok(0), Ok(0), FALSE)
+      \* res follows the path's mode argument, ref the OS's own call with the mode as given
+      Opened(s, i, created) ==
+        LET sres == IF created THEN [s EXCEPT !.perm[i] = Masked(KMode(o, pth))] ELSE s
+            pres == sres.perm[i]
+            pref == IF created THEN Masked(o.mode) ELSE s.perm[i]
+        IN IF pth = "blocking_fallback" /\ "DevOpenFallbackFd0" \in Devs
+           THEN E([sres EXCEPT !.fd = NoFd, !.cur = 0], Err("WrongDescriptor"), Ok(pref), TRUE)
+           ELSE E(sres, Ok(pres), Ok(pref), FALSE)
+      newfile == opened([st EXCEPT !.ns[tp] = FileN(st.next), !.next = @ + 1], st.next)
+      \* O_TMPFILE: an anonymous inode in the directory tp, not linked into the namespace
+      anon == opened([st EXCEPT !.next = @ + 1], st.next)
   IN IF invalid THEN Same(Err("InvalidInput"))
+     ELSE IF o.tmp THEN
+          \* build_open_flags: O_TMPFILE with O_CREAT, or without write access, is EINVAL before any lookup
+          (IF o.c \/ o.cn \/ ~o.w THEN Same(Err("InvalidInput"))
+           ELSE IF pe # "" THEN Same(Err(pe))
+           ELSE IF node.k = "none" THEN Same(Err("NotFound"))
+           ELSE IF node.k # "dir" THEN Same(Err("NotADirectory"))
+           ELSE Opened(anon, st.next, TRUE))
      ELSE IF pe # "" THEN Same(Err(pe))
-     ELSE IF o.cn THEN (IF node.k # "none" THEN Same(Err("AlreadyExists")) ELSE Opened(created))
-     ELSE IF node.k = "none" THEN (IF o.c THEN Opened(created) ELSE Same(Err("NotFound")))
+     ELSE IF o.cn THEN (IF node.k # "none" THEN Same(Err("AlreadyExists")) ELSE Opened(newfile, st.next, TRUE))
+     ELSE IF node.k = "none" THEN (IF o.c THEN Opened(newfile, st.next, TRUE) ELSE Same(Err("NotFound")))
      ELSE IF node.k = "dir" THEN Same(Err("IsADirectory"))       \* only generated with write access
      ELSE LET s1 == IF o.t THEN [st EXCEPT !.data[node.ino] = <<>>, !.hi[node.ino] = 0] ELSE st
-          IN Opened(opened(s1, node.ino))
+          IN Opened(opened(s1, node.ino), node.ino, FALSE)
 
 \* ---------------------------------------------------------------------------
 \* directory utilities (compio-fs/src/utils)
@@ -324,7 +357,7 @@ NsEff(op) ==
          ELSE IF n[tp].k = "dir" THEN Same(Err("IsADirectory"))
          ELSE IF n[tp].k = "none"
               THEN E([st EXCEPT !.ns[tp] = FileN(st.next), !.data[st.next] = bytes, !.hi[st.next] = op.n,
-                                !.next = @ + 1], Ok(0), Ok(0), FALSE)
+                                !.perm[st.next] = Masked(DefaultMode), !.next = @ + 1], Ok(0), Ok(0), FALSE)
               ELSE E([st EXCEPT !.data[n[tp].ino] = bytes, !.hi[n[tp].ino] = op.n], Ok(0), Ok(0), FALSE)
     [] op.o \in {"path_meta", "path_lmeta"} ->     \* metadata / symlink_metadata: n = len | -1 dir | -2 symlink
          LET tp == IF op.o = "path_meta" THEN Resolve(n, p) ELSE p IN
@@ -359,7 +392,7 @@ PReadEff(op) ==
 \* ---------------------------------------------------------------------------
 \* operations (uniform record so that sets of them are comparable)
 \* ---------------------------------------------------------------------------
-NoOpt == [r |-> FALSE, w |-> FALSE, t |-> FALSE, c |-> FALSE, cn |-> FALSE, app |-> FALSE]
+NoOpt == [r |-> FALSE, w |-> FALSE, t |-> FALSE, c |-> FALSE, cn |-> FALSE, app |-> FALSE, tmp |-> FALSE, mode |-> 438]
 Op(o, off, bufs, n, p, q, opt) == [o |-> o, off |-> off, bufs |-> bufs, n |-> n, p |-> p, q |-> q, opt |-> opt]
 BufOp(o, off, bufs) == Op(o, off, bufs, 0, "", "", NoOpt)
 PlainOp(o) == Op(o, 0, <<>>, 0, "", "", NoOpt)
@@ -415,7 +448,7 @@ OpEnabled(op) ==
        [] op.o = "open" ->
             /\ ~st.fd.open
             \* a directory is never opened read-only here (reading a directory fd is outside the model)
-            /\ (st.ns[Resolve(st.ns, op.p)].k = "dir" => (op.opt.w \/ ~op.opt.r))
+            /\ (st.ns[Resolve(st.ns, op.p)].k = "dir" => (op.opt.w \/ ~op.opt.r \/ op.opt.tmp))
        [] op.o = "rename" -> (st.ns[op.p].k = "dir" => EmptyDir(st.ns, op.p))   \* children do not move in this model
        [] op.o \in NsNames -> TRUE
        [] op.o = "pipe_create" -> ~st.pipe.made
@@ -493,7 +526,8 @@ Sanity == LenIsMaxWrittenEnd /\ ReadsAreSubstrings /\ PipeFifo /\ NodesValid /\ 
 \* ---------------------------------------------------------------------------
 B(l, c) == [len |-> l, cap |-> c]
 W(n, c) == [n |-> n, cap |-> c]
-Opt(r, w, t, c, cn, a) == [r |-> r, w |-> w, t |-> t, c |-> c, cn |-> cn, app |-> a]
+OptM(r, w, t, c, cn, a, tmp, m) == [r |-> r, w |-> w, t |-> t, c |-> c, cn |-> cn, app |-> a, tmp |-> tmp, mode |-> m]
+Opt(r, w, t, c, cn, a) == OptM(r, w, t, c, cn, a, FALSE, 438)
 
 Off_Wide == {0, 1, 3, 5, MAXOFF}
 Off_Narrow == {0, 2, MAXOFF}
@@ -511,8 +545,11 @@ VWB_Wide == {<<W(1, 1)>>, <<W(1, 3)>>, <<W(1, 1), W(2, 2)>>, <<W(1, 3), W(2, 4)>
 VWB_Narrow == {<<W(1, 3), W(2, 2)>>}
 Init_Wide == {<<>>, <<1>>, <<1, 2, 3>>, <<1, 2, 3, 4>>}
 Init_Narrow == {<<>>, <<1, 2, 3>>}
-AllOpts == {Opt(r, w, t, c, cn, a) : r \in BOOLEAN, w \in BOOLEAN, t \in BOOLEAN, c \in BOOLEAN,
-                                     cn \in BOOLEAN, a \in BOOLEAN}
+\* modes: 0666 = 438 (default), 0640 = 416, 0600 = 384, 0444 = 292, 0660 = 432 (the umask takes the group w bit)
+AllOpts == {OptM(r, w, t, c, cn, a, tmp, m) : r \in BOOLEAN, w \in BOOLEAN, t \in BOOLEAN, c \in BOOLEAN,
+                                              cn \in BOOLEAN, a \in BOOLEAN, tmp \in BOOLEAN, m \in {438, 416}}
+           \cup {OptM(r, TRUE, FALSE, c, cn, FALSE, tmp, m) : r \in BOOLEAN, c \in BOOLEAN, cn \in BOOLEAN,
+                                                             tmp \in BOOLEAN, m \in {384, 292, 432}}
 Opts_Narrow == {Opt(TRUE, FALSE, FALSE, FALSE, FALSE, FALSE), Opt(TRUE, TRUE, FALSE, TRUE, FALSE, FALSE),
                 Opt(FALSE, TRUE, TRUE, TRUE, FALSE, FALSE), Opt(FALSE, TRUE, FALSE, FALSE, TRUE, FALSE),
                 Opt(TRUE, TRUE, FALSE, FALSE, FALSE, TRUE), Opt(FALSE, TRUE, FALSE, TRUE, FALSE, TRUE)}
@@ -550,6 +587,10 @@ PW_Narrow == {W(1, 1), W(2, 4), W(0, 0)}
 PVW_Narrow == {<<W(1, 3), W(2, 2)>>}
 PR_Narrow == {B(0, 2), B(1, 1), B(0, 0)}
 PVR_Narrow == {<<B(0, 1), B(0, 2)>>, <<B(1, 1), B(0, 2)>>, <<B(2, 2)>>}
-Opts_Mid == Opts_Narrow \cup {Opt(FALSE, TRUE, TRUE, FALSE, FALSE, FALSE), Opt(TRUE, TRUE, FALSE, FALSE, TRUE, FALSE),
+Opts_Mid == Opts_Narrow \cup {OptM(TRUE, TRUE, FALSE, FALSE, FALSE, FALSE, TRUE, 416),
+                              OptM(FALSE, TRUE, FALSE, FALSE, FALSE, FALSE, TRUE, 292),
+                              OptM(TRUE, TRUE, FALSE, TRUE, FALSE, FALSE, FALSE, 432),
+                              OptM(TRUE, TRUE, FALSE, FALSE, FALSE, FALSE, FALSE, 384),
+                              Opt(FALSE, TRUE, TRUE, FALSE, FALSE, FALSE), Opt(TRUE, TRUE, FALSE, FALSE, TRUE, FALSE),
                               Opt(TRUE, FALSE, FALSE, FALSE, FALSE, TRUE)}
 =============================================================================
